@@ -17,7 +17,7 @@ def gen_programs(rng, tier):
         dict(tag="unfinalized: dropped image writer", nofin=True, items=[("ID", "s", rng.bytes(1100), rng.bytes(64))]),
         dict(tag="dropped sub-writers, finalized", items=[("PD", P[3], pts(P[3], 2)), ("B", rng.bytes(957)), ("ID", "c", rng.bytes(60), None)]),
     ]
-    n_rand = 4 if tier == "quick" else 192
+    n_rand = 12 if tier == "quick" else 192
     for i in range(n_rand):
         nofin = rng.chance(1, 5)
         items = [crash.rand_item(rng, allow_dropped=True) for _ in range(rng.range(1, 3))]
